@@ -56,6 +56,12 @@ func (k msgServer) SubmitValue(ctx context.Context, msg *types.MsgSubmitValue) (
 	}
 
 	reportingPower := reporterStake.Quo(layertypes.PowerReduction).Uint64()
+	// a report without reporting power carries no weight, and a round that holds only such reports has a total
+	// power of zero, by which the end-of-block aggregation and reward split divide (possible once governance sets
+	// the minimum stake below one whole token)
+	if reportingPower == 0 {
+		return nil, errorsmod.Wrapf(types.ErrNotEnoughStake, "reporter has %s, less than one unit of reporting power", reporterStake)
+	}
 
 	query, err := k.keeper.CurrentQuery(ctx, queryId)
 	if err != nil {
